@@ -34,6 +34,8 @@ def cases(rng, tier):
         q = ",".join("c%d" % t for t in ts) + "," + ",".join("s%d" % t for t in ts[:4])
         yield ("light f %s %s" % (hexs(prog), q), "fixture")
         yield ("lightspec %s %s" % (hexs(prog), q), "fixture-spec")
+    yield ("light f empty c0,p0,s0,c1000,s1000,c16777215", "init-empty")
+    yield ("light h empty c1000,c0,s500,p60000", "init-empty")
     for label, prog in L.special_programs(rng, tier == "thorough", deep=False):
         ts = L.probe_times(rng, 14, cyclic=True)
         q = ",".join(rng.choice("cccps") + str(t) for t in ts)
